@@ -999,3 +999,34 @@ func countEdgesDeep(c *Ctx, b *ana.Builder, patterns ...string) int {
 	}
 	return n
 }
+
+// deepCallTerms lists the terms of all calls made by b's function and, with
+// parameters bound to the arguments, by the repository helpers it calls
+// (two levels): a loop body moved into a helper makes the same calls with the same terms.
+func deepCallTerms(c *Ctx, b *ana.Builder) []*ana.Term {
+	var out []*ana.Term
+	var rec func(b *ana.Builder, depth int)
+	seen := map[*ssa.Function]bool{b.Fn: true}
+	rec = func(b *ana.Builder, depth int) {
+		for _, ci := range ana.Calls(b.Fn) {
+			t := b.CallTermAt(ci)
+			out = append(out, t)
+			if depth >= 2 {
+				continue
+			}
+			h := ana.StaticRepoCallee(ci.Common())
+			if h == nil || seen[h] {
+				continue
+			}
+			call := stripObj(t)
+			if call.Op != "call" || len(call.Args) != len(h.Params) {
+				continue
+			}
+			seen[h] = true
+			rec(boundBuilderP(c.P, call), depth+1)
+			delete(seen, h)
+		}
+	}
+	rec(b, 0)
+	return out
+}
